@@ -391,3 +391,47 @@ def extract_active(ctx):
         for nm, col in (("FROM_NODE", B_FROM_NODE), ("TO_NODE", B_TO_NODE)):
             ctx.ob("%s/frame/%s" % (mode, nm), "frame", a + [b >= 0, b < NB], K.eq_val(fb_.f(b, col), bp.f(b, col)))
         ctx.check_safety(paths, [NN >= 1, NB >= 0], mode + "/fn", kinds=("shape",))
+
+
+# ---------------------------------------------------------------------------------------------
+# which branches do NOT connect hydraulically (FLOW_RETURN_CONNECT): every heat consumer, every flow controller
+# with control_active, nothing else -- the set of writers of the column is closed
+
+@unit("C04", "connecting_flags", functions=["pandapipes.component_models.heat_consumer_component:HeatConsumer.create_pit_branch_entries",
+                                            "pandapipes.component_models.flow_control_component:FlowControlComponent.create_pit_branch_entries",
+                                            "pandapipes.component_models.abstract_models.branch_models:BranchComponent.create_pit_branch_entries"],
+      engine="E2")
+def connecting_flags(ctx):
+    ctx.assume("A1", "A4", "A6")
+    import ast
+    import os
+    from contracts.C11 import consumer_entries_obligations
+    consumer_entries_obligations(ctx, ("FLOW_RETURN_CONNECT",))
+    from contracts.C03 import flow_control_entries
+    # (the flow controller's flag: control_active ? 1 : default -- proved by the C03 unit, re-run here under this property)
+    sub = type(ctx)(ctx.prop, ctx.unit + "/flow_control", ctx.tier, ctx.seed, ctx.known)
+    flow_control_entries(sub)
+    for o in sub.obs:
+        if "active-controller-does-not-connect" in o["id"] or o["kind"] == "cover":
+            ctx.obs.append(o)
+    # closed writer set
+    writers = {}
+    root = os.path.join(S.REPO, "src", "pandapipes")
+    for dp, _, files in os.walk(root):
+        if "/test" in dp:
+            continue
+        for fn_ in files:
+            if not fn_.endswith(".py"):
+                continue
+            tree = ast.parse(open(os.path.join(dp, fn_)).read())
+            for cls in [x for x in ast.walk(tree) if isinstance(x, ast.ClassDef)]:
+                for fdef in [x for x in cls.body if isinstance(x, ast.FunctionDef)]:
+                    for st in ast.walk(fdef):
+                        tg = st.targets if isinstance(st, ast.Assign) else ([st.target] if isinstance(st, ast.AugAssign) else [])
+                        for t_ in tg:
+                            if isinstance(t_, ast.Subscript) and "FLOW_RETURN_CONNECT" in ast.unparse(t_.slice):
+                                writers.setdefault("%s.%s" % (cls.name, fdef.name), []).append(ast.unparse(st))
+    expected = {"BranchComponent.create_pit_branch_entries", "HeatConsumer.create_pit_branch_entries",
+                "FlowControlComponent.create_pit_branch_entries"}
+    ctx.decided("writers-of-the-flag-are-exactly-base-consumer-controller", "frame", set(writers) == expected,
+                witness="writers: %s" % {k: v for k, v in writers.items()})
